@@ -334,8 +334,15 @@ pub fn program(ch: &mut Choices, o: &WildOpts) -> (Vec<Line>, WildInfo) {
         }
         if is_last_in_region {
             let fall = o.chaos && ch.chance(1, 12) && bi + 1 < n_blocks;
+            // the very last block may run off the end of the file, or leave through a computed jump
+            let off_end = o.chaos && !o.c03_domain && reg > 0 && bi + 1 == n_blocks && ch.chance(1, 10);
             if fall {
                 info.fallthrough_into_function = true;
+            } else if off_end {
+                body.extend(syn::plain_ins(ch, &data_labels));
+                if ch.chance(1, 2) {
+                    term.push(ins("jr", vec![r(*ch.pick(&[11u8, 5, 28]))]));
+                }
             } else if reg == 0 {
                 if matches!(term.last(), Some(Line::Ins(x)) if x.mn == "j" || x.mn == "jal") {
                     // already leaves
@@ -362,6 +369,10 @@ pub fn program(ch: &mut Choices, o: &WildOpts) -> (Vec<Line>, WildInfo) {
     for b in &blocks {
         for l in &b.labels {
             lines.push(Line::Label(l.clone()));
+        }
+        if !b.labels.is_empty() && !o.c03_domain && ch.chance(1, 14) {
+            // a directive between the label(s) and the instruction they name
+            lines.push(Line::Dir(".align".into(), vec![i(2)]));
         }
         lines.extend(b.body.iter().cloned());
         lines.extend(b.term.iter().cloned());
